@@ -40,6 +40,7 @@ def run(chk: Check, proj: Project) -> None:
     s5(chk, proj)
     s6(chk, proj, m, f)
     s8_patch_installed(chk, proj)
+    s9_no_token_lost(chk, proj, m, f)
 
 
 def s7_fresh_lexer(chk: Check, proj: Project, m, f) -> bool:
@@ -85,6 +86,42 @@ def s7_fresh_lexer(chk: Check, proj: Project, m, f) -> bool:
            "the resuming lexer's `verbatim` is set from a variable that the hand-over branch derives from the fixed token's contents" if carried else
            f"{why}: a `{{% verbatim \"x\" %}}` tag (it contains a quote, so it is handed over) is followed by a lexer that tokenizes the block's content ({{{{ a }}}} becomes a VAR token) although stock Django keeps it as TEXT")
     return ok
+
+
+def s9_no_token_lost(chk: Check, proj: Project, m, f) -> None:
+    chk.rule("S9", "no token of the stock lexer is dropped: every iteration of the token loop appends the token or hands it over (no `continue`); outside quoted strings the scanner does not treat a backslash as an escape (a `\\` before `%}` must not hide the end of the tag)")
+    loops = [x for x in ast.walk(f) if isinstance(x, ast.For) and isinstance(x.iter, ast.Name) and any(isinstance(c, ast.Call) and isinstance(c.func, ast.Attribute) and c.func.attr == "tokenize" for _s, v in assignments(f, x.iter.id) if v is not None for c in ast.walk(v))]
+    if len(loops) != 1:
+        chk.undecided("S9", "util.template_parser:parse_template:every-token-kept", m.loc(f), f"{len(loops)} token loops")
+    else:
+        lp = loops[0]
+        tv = norm(lp.target)
+        conts = [x for x in ast.walk(lp) if isinstance(x, ast.Continue)]
+        apps = [c for c in ast.walk(lp) if isinstance(c, ast.Call) and isinstance(c.func, ast.Attribute) and c.func.attr == "append" and c.args and norm(c.args[0]) == tv]
+        ok = not conts and bool(apps)
+        chk.ob("S9", "util.template_parser:parse_template:every-token-kept", m.loc(conts[0]) if conts else m.loc(lp), ok,
+               f"each `{tv}` is appended or ends the loop by the hand-over `break`; there is no `continue`" if ok else
+               f"`{short(enclosing_stmt(conts[0])) if conts else 'no append'}` skips tokens: the spans of the kept tokens no longer cover the source (`{{##}}`, `{{{{ }}}}` vanish) and the stream differs from stock Django's although no tag contains a quote")
+    dm, df = proj.func("util.template_parser", "_detailed_tag_parser")
+    n = 0
+    for c in [c for c in calls(df) if last_attr(c.func) in ("take_until_any", "take_until")]:
+        okf, stop = proj.try_fold(dm, c.args[0], env=None) if c.args else (False, None)
+        if not okf and c.args and isinstance(c.args[0], ast.Name):
+            d = [v for _s, v in assignments(df, c.args[0].id) if v is not None]
+            if len(d) == 1:
+                try:
+                    okf, stop = True, tuple(x for e in (d[0].elts if isinstance(d[0], ast.Tuple) else []) for x in ([e.value] if isinstance(e, ast.Constant) else ["'", '"'] if isinstance(e, ast.Starred) else []))
+                except Exception:
+                    okf = False
+        if not okf or "%" not in tuple(stop):
+            continue  # a scan inside a quoted string (stops at the quote only)
+        n += 1
+        esc = kwarg(c, "allow_escapes") or (c.args[1] if len(c.args) > 1 else None)
+        ok = esc is None or (isinstance(esc, ast.Constant) and esc.value is False)
+        chk.ob("S9", "util.template_parser:_detailed_tag_parser:no-escapes-outside-strings", dm.loc(c), ok,
+               "outside strings the scan stops at every quote and every `%` (no escape processing)" if ok else
+               f"`{short(c)}` lets a backslash escape the next character OUTSIDE a string: `{{% a \"s\" \\%}}after` no longer ends at that `%}}`, the BLOCK token swallows the following text and tags")
+    chk.floor("S9", n, 1)
 
 
 def s8_patch_installed(chk: Check, proj: Project) -> None:
